@@ -213,6 +213,21 @@ CLAIMED = {
             'encodings. The TOFU mode (no pinned key) is excluded by the statement. Reordering/duplication/loss of handshake datagrams '
             'at the server gate is part of C10.',
             'DESIGN.md §6 C02'),
+    'C10': ('The unmodified UdpServerThread.run() is executed single-threaded under the engine and driven from inside (the handler\'s '
+            'per-tick update event and Condition.wait call back into the harness, ctxt._active is harness-owned, server.sleep is a no-op); '
+            'datagrams enter through the real TwistedServer.datagramReceived. Two addresses: client B performs an honest handshake and '
+            'sends a message; for client A every action sequence from {reply, nothing, garbage (3 kinds), duplicate, app message, '
+            'peer disconnect, reconnect from the same address, 6 s silence, server-side disconnect} within the bound is explored, '
+            'crossed with handler exceptions in connect/message/disconnect/update and shutdown after tick 4 or 8. On every path: no '
+            'exception leaves the loop; per client object connect once, then only its own messages (each at most once), then '
+            'disconnect once; starting first, shutdown last; pool empty after shutdown; connect only for a client that completed the '
+            'handshake; B unaffected by A. get_token is decided for every RNG outcome against arbitrary tokens in both pools; the '
+            'reactor-thread entry points are proven never to reach a handler method.',
+            'Threads: the engine is single-threaded; "all handler events on one thread" is replaced by the containment lemma (entry points '
+            'never call the handler; every other call site is inside run()). Trusted: sx engine, ideal crypto, inert threading/reactor '
+            'stand-ins; inside the loop harness get_token hands out distinct values (the generator is L10.3). Bounds: 8 ticks, 2 '
+            'addresses, action alphabet and positions as listed in the evidence.',
+            'DESIGN.md §6 C10'),
 }
 
 NOT_YET = 'check not built yet in this round (planned: see DESIGN.md §6); not claimed'
